@@ -86,6 +86,43 @@ def many_prefix_case(rng):
     return {'items': items, 'encoding': 'utf-8', 'ngram': 3, 'max_len': 6, 'alphabet': 100, 'coverage': 0.6, 'symbols': ''.join(syms), 'hseed': rng.getrandbits(32),
             'prefixcount': False, 'many_prefixes': True}
 
+def check_interrupted(run, case):
+    """CTRL-C during a training (the keyspace of the higher levels takes a good part of the run).  The trainer of today dies and saves nothing.  A ruleset that
+    is left behind all the same is judged like any other: the keyspace of a level is a function of the level files, so where IP / CP / EP / LN.level are the
+    files of the uninterrupted training of the same list, omen_keyspace.txt has to be its file too - and the saved probability (per-level count / N) / keyspace."""
+    from .. import interrupt
+    ref, outs, cleanup = interrupt.interrupted_trainings(case['seed'], case['n_lines'], ['-c', '0.6', '-n', str(case['ngram'])], case['points'], tag='c18int')
+    try:
+        def omen(path):
+            od = os.path.join(path, 'Omen')
+            rd = lambda f: open(os.path.join(od, f), 'rb').read() if os.path.exists(os.path.join(od, f)) else None
+            return {f: rd(f) for f in ('IP.level', 'CP.level', 'EP.level', 'LN.level', 'omen_keyspace.txt', 'pcfg_omen_prob.txt', 'omen_pws_per_level.txt')}
+        if not os.path.exists(os.path.join(ref['path'], 'Grammar', 'grammar.txt')):
+            run.inconc('reference training did not complete'); return
+        R = omen(ref['path'])
+        for o in outs:
+            run.ev('trainings_interrupted_by_sigint')
+            if not o['saved']:
+                run.ev('interrupted_trainings_that_saved_nothing'); continue
+            run.ev('interrupted_trainings_that_left_a_ruleset')
+            O = omen(o['path'])
+            if all(O[f] == R[f] for f in ('IP.level', 'CP.level', 'EP.level', 'LN.level')):
+                if O['omen_keyspace.txt'] != R['omen_keyspace.txt']:
+                    a = dict(l.split(b'\t') for l in (O['omen_keyspace.txt'] or b'').split(b'\n') if l)
+                    b = dict(l.split(b'\t') for l in R['omen_keyspace.txt'].split(b'\n') if l)
+                    # a level that is simply not listed claims nothing; a level that is listed claims the number of strings it produces
+                    diff = sorted((int(k), a[k], b[k]) for k in set(a) & set(b) if a[k] != b[k])[:4]
+                    if not diff:
+                        run.ev('left_behind_rulesets_listing_fewer_levels'); continue
+                    run.violation(f'trainer.py interrupted by SIGINT {o["at"]:.2f}s into a {ref["seconds"]:.2f}s training left a ruleset with the level files of the full training but '
+                                  f'another omen_keyspace.txt: (level, saved, full training) {diff}', case, observed={'stdout_tail': o['stdout_tail'][-200:]}); return
+                if O['omen_pws_per_level.txt'] == R['omen_pws_per_level.txt'] and O['pcfg_omen_prob.txt'] != R['pcfg_omen_prob.txt']:
+                    run.violation(f'trainer.py interrupted by SIGINT {o["at"]:.2f}s left a ruleset with the level files and per-level counts of the full training but other level probabilities', case); return
+                run.ev('left_behind_rulesets_with_the_keyspace_of_the_full_training')
+        run.nontrivial(h(['interrupted', case['seed'], case['n_lines'], case['ngram']]))
+    finally:
+        cleanup()
+
 def run(run, rng):
     run.required_events = ['levels_compared', 'retrained_in_place_with_other_options']
     run.min_distinct = 10
@@ -94,6 +131,8 @@ def run(run, rng):
     if run.shard[0] == 0 or run.tier == 'thorough':
         run.ev('many_prefix_lists')
         run.guard(many_prefix_case(rng), check_case, seconds=600)
+    if run.shard[0] == 1 % run.shard[1]:
+        run.guard({'interrupted': True, 'seed': rng.getrandbits(32), 'n_lines': 6000, 'ngram': rng.choice([3, 4]), 'points': 16 if run.tier == 'quick' else 60}, check_interrupted, seconds=600)
     for i in range(N[run.tier]):
         case = c11.gen_case(rng)
         if i % 5 == 4:
@@ -111,4 +150,7 @@ def run(run, rng):
         run.guard(case, check_case, seconds=240)
 
 def replay(run, case):
-    check_case(run, case['case'])
+    if case['case'].get('interrupted'):
+        check_interrupted(run, case['case'])
+    else:
+        check_case(run, case['case'])
